@@ -78,7 +78,8 @@ def measure_effects():
             if not reached:
                 raise core.HarnessError("C24: effect measurement produced no markers: %s" % t.run.brief())
             for i in reached:
-                v, _ = S.judge(segs[str(i)], [w.tok], own_files=[path], count_first_exec=True)
+                v, _ = S.judge(segs[str(i)], [w.tok], own_files=[path], count_first_exec=True,
+                               import_tokens=[w.modtok])
                 eff[voc[i]["id"]] = sorted({x["kind"] for x in v})
             if "end" in segs:
                 break
@@ -263,7 +264,7 @@ def _json_lines(text):
 
 
 def _trace_verdict(t, w, own):
-    viol, obs = S.judge(t.events, [w.tok], own_files=own)
+    viol, obs = S.judge(t.events, [w.tok], own_files=own, import_tokens=[w.modtok])
     snap = w.snapshot(ignore=tuple(os.path.relpath(x, w.dir) for x in own))
     base = {k: v for k, v in w.base.items()}
     changed = sorted(set(snap.items()) ^ set(base.items()))
